@@ -4,7 +4,8 @@
 use crate::model::{guarded, Cfg, Key, Outcome, Setter};
 use crate::prng::{fnv_mix, splitmix64};
 use crate::sched::Sched;
-use crate::workload::{Op, RunSpec, SITES};
+use crate::step;
+use crate::workload::{Op, Preempt, RunSpec, SITES};
 use grex::RegExpBuilder;
 use serde_json::{json, Value};
 use std::cell::{Cell, RefCell};
@@ -103,10 +104,31 @@ pub struct Shared {
     pub site_enabled: Vec<bool>,
     pub site_hits: Vec<AtomicU64>,
     pub in_build: Vec<AtomicBool>,
+    pub preempts: Vec<Preempt>,
+    /// hook visits per client (all sites)
+    pub visits: Vec<AtomicU64>,
+    /// preemptions that were carried out at the next hook because it came before the requested instruction count
+    pub preempt_at_next_hook: AtomicU64,
 }
 
 thread_local! {
     static CLIENT: RefCell<Option<(usize, Arc<Shared>)>> = const { RefCell::new(None) };
+    /// what the SIGTRAP handler needs (plain slots: no borrow flag, no destructor): client id, the run's shared
+    /// state (kept alive by the client's own Arc for as long as this is set), who takes the baton
+    static STEP_CTX: Cell<(usize, *const Shared, usize)> = const { Cell::new((0, std::ptr::null(), 0)) };
+    static HOOK_VISITS: Cell<u64> = const { Cell::new(0) };
+}
+
+/// Parks the calling client between two instructions (called from the SIGTRAP handler) or at a hook.
+fn preempt_now() {
+    let (id, shared, to) = STEP_CTX.with(|c| c.get());
+    if shared.is_null() {
+        return;
+    }
+    let shared = unsafe { &*shared };
+    let was = IN_LIBRARY[id % 64].swap(false, Ordering::SeqCst);
+    shared.sched.preempt_to(id, to);
+    IN_LIBRARY[id % 64].store(was, Ordering::SeqCst);
 }
 
 /// In-build site at which each client is currently parked (index + 1; 0 = not parked inside build()).
@@ -127,6 +149,8 @@ fn client_in_library(id: usize) -> bool {
 fn in_library<T>(id: usize, f: impl FnOnce() -> T) -> T {
     IN_LIBRARY[id % 64].store(true, Ordering::SeqCst);
     let r = f();
+    // single-stepping never outlives the call it was started in
+    step::disarm();
     IN_LIBRARY[id % 64].store(false, Ordering::SeqCst);
     r
 }
@@ -145,8 +169,19 @@ fn site_index(site: &str) -> Option<usize> {
 }
 
 pub fn point_hook(site: &'static str) {
+    // a preemption whose instruction count reaches beyond this hook takes place here
+    let pending = step::disarm();
     let ctx = CLIENT.with(|c| c.borrow().as_ref().map(|(id, sh)| (*id, sh.clone())));
     if let Some((id, shared)) = ctx {
+        if pending {
+            shared.preempt_at_next_hook.fetch_add(1, Ordering::Relaxed);
+            preempt_now();
+        }
+        let visit = HOOK_VISITS.with(|v| {
+            v.set(v.get() + 1);
+            v.get()
+        });
+        shared.visits[id].store(visit, Ordering::Relaxed);
         if let Some(ix) = site_index(site) {
             shared.site_hits[ix].fetch_add(1, Ordering::Relaxed);
             if shared.site_enabled[ix] && CRITICAL_SITES.load(Ordering::Relaxed) & (1u64 << ix) == 0 {
@@ -155,6 +190,18 @@ pub fn point_hook(site: &'static str) {
                 shared.sched.yield_point(id, true);
                 IN_LIBRARY[id % 64].store(true, Ordering::SeqCst);
                 PARKED_SITE[id % 64].store(0, Ordering::SeqCst);
+            }
+        }
+        if !shared.preempts.is_empty() {
+            if let Some(p) = shared.preempts.iter().find(|p| p.client == id && p.visit == visit) {
+                let (steps, to) = (p.steps, p.to);
+                STEP_CTX.with(|c| c.set((id, Arc::as_ptr(&shared), to)));
+                drop(shared);
+                if steps == 0 || !step::available() {
+                    preempt_now();
+                } else {
+                    step::arm(steps);
+                }
             }
         }
     }
@@ -205,6 +252,8 @@ fn client_main(id: usize, hash_seed: u64, ops: Vec<Op>, shared: Arc<Shared>) {
         enable_jumpy_clock(hash_seed ^ 0xC10C_C10C);
     }
     CLIENT.with(|c| *c.borrow_mut() = Some((id, shared.clone())));
+    STEP_CTX.with(|c| c.set((id, Arc::as_ptr(&shared), id)));
+    HOOK_VISITS.with(|v| v.set(0));
     shared.sched.wait_first_turn(id);
     let mut slots: Vec<Option<RegExpBuilder>> = vec![];
     let put = |slots: &mut Vec<Option<RegExpBuilder>>, slot: usize, b: RegExpBuilder| {
@@ -294,9 +343,14 @@ fn client_main(id: usize, hash_seed: u64, ops: Vec<Op>, shared: Arc<Shared>) {
         shared.sched.yield_point(id, false);
     }
     in_library(id, || drop(slots));
+    STEP_CTX.with(|c| c.set((0, std::ptr::null(), 0)));
     CLIENT.with(|c| *c.borrow_mut() = None);
     shared.sched.finish(id);
 }
+
+/// What the last executed run reported about its preemptions: (hook visits per client, preemptions carried out,
+/// of which at the next hook). Read by the adaptive sweep generator.
+pub static LAST_RUN_INFO: Mutex<(Vec<u64>, u64, u64)> = Mutex::new((Vec::new(), 0, 0));
 
 pub struct RunResult {
     pub events: Vec<Event>,
@@ -308,10 +362,50 @@ pub struct RunResult {
     pub lock_handovers: u64,
     pub sched_state: String,
     pub site_hits: Vec<u64>,
+    /// hook visits per client
+    pub visits: Vec<u64>,
+    pub preemptions: u64,
+    pub preempt_at_next_hook: u64,
+}
+
+/// Builds that bring the lazily initialised tables of the library into their steady state, so that an instruction
+/// count after a hook means the same in the process that found a violation and in the process that replays it.
+fn warm_up_for_stepping() {
+    static DONE: std::sync::Once = std::sync::Once::new();
+    DONE.call_once(|| {
+        let _ = std::thread::Builder::new()
+            .name("warm-up".into())
+            .stack_size(8 << 20)
+            .spawn(|| {
+                set_hash_stream(0x3A13_0000_0000_0077);
+                let cases = vec!["a1 ".to_string(), "Z_\u{e9}".to_string(), "\u{663}:[".to_string()];
+                for mask in 0u32..8 {
+                    let _ = guarded(|| {
+                        let mut b = RegExpBuilder::from(&cases);
+                        if mask & 1 != 0 {
+                            b.with_conversion_of_digits().with_conversion_of_words().with_conversion_of_whitespace();
+                        }
+                        if mask & 2 != 0 {
+                            b.with_conversion_of_non_digits().with_conversion_of_non_words().with_conversion_of_non_whitespace();
+                        }
+                        if mask & 4 != 0 {
+                            b.with_conversion_of_repetitions().with_case_insensitive_matching().with_escaping_of_non_ascii_chars(true);
+                        }
+                        b.build()
+                    });
+                }
+            })
+            .expect("spawn warm-up")
+            .join();
+    });
 }
 
 pub fn execute_run(spec: &RunSpec) -> RunResult {
     let n = spec.clients.len();
+    if !spec.preempts.is_empty() {
+        step::install(preempt_now);
+        warm_up_for_stepping();
+    }
     let est_steps: u64 = spec.clients.iter().map(|c| c.ops.len() as u64).sum::<u64>() * 6 + 4;
     let all_sites = spec.sites.iter().any(|s| s == "*");
     let mut sched = Sched::new(n, spec.mailboxes, &spec.sched, est_steps);
@@ -333,6 +427,9 @@ pub fn execute_run(spec: &RunSpec) -> RunResult {
             .collect(),
         site_hits: SITES.iter().map(|_| AtomicU64::new(0)).collect(),
         in_build: (0..n).map(|_| AtomicBool::new(false)).collect(),
+        preempts: spec.preempts.clone(),
+        visits: (0..n).map(|_| AtomicU64::new(0)).collect(),
+        preempt_at_next_hook: AtomicU64::new(0),
     });
     let mut handles = vec![];
     for (id, c) in spec.clients.iter().enumerate() {
@@ -355,6 +452,11 @@ pub fn execute_run(spec: &RunSpec) -> RunResult {
         }
     }
     let events = shared.events.lock().unwrap().clone();
+    *LAST_RUN_INFO.lock().unwrap() = (
+        shared.visits.iter().map(|a| a.load(Ordering::Relaxed)).collect(),
+        shared.sched.preemptions(),
+        shared.preempt_at_next_hook.load(Ordering::Relaxed),
+    );
     RunResult {
         events,
         decisions,
@@ -365,6 +467,9 @@ pub fn execute_run(spec: &RunSpec) -> RunResult {
         lock_handovers: shared.sched.lock_handovers(),
         sched_state: if deadlock { shared.sched.describe() } else { String::new() },
         site_hits: shared.site_hits.iter().map(|a| a.load(Ordering::Relaxed)).collect(),
+        visits: shared.visits.iter().map(|a| a.load(Ordering::Relaxed)).collect(),
+        preemptions: shared.sched.preemptions(),
+        preempt_at_next_hook: shared.preempt_at_next_hook.load(Ordering::Relaxed),
     }
 }
 
